@@ -597,6 +597,50 @@ func (fr *FnRun) evalCall(e *Expr, env *Env) Val {
 	case "isnil":
 		need(1)
 		return fr.specEq(env.st, arg(0), nilMarker{})
+	case "implements":
+		// implements(x, T): the comma-ok result of the type assertion x.(T), T an interface or type of
+		// the function's package (the same term the executor uses for the assertion in the code)
+		if len(e.Args) != 2 || e.Args[1].Kind != "ident" {
+			panic(abortf("contract: implements(value, TypeName)"))
+		}
+		iv, ok := ex.force(env.st, fr.eval(e.Args[0], env)).(*IfaceV)
+		if !ok {
+			panic(abortf("contract: implements() of a non-interface value"))
+		}
+		pkg := fr.fn.Pkg
+		if pkg == nil && fr.fn.Origin() != nil {
+			pkg = fr.fn.Origin().Pkg
+		}
+		var at types.Type
+		if pkg != nil {
+			if o := pkg.Pkg.Scope().Lookup(e.Args[1].Name); o != nil {
+				at = o.Type()
+			}
+		}
+		if at == nil {
+			panic(abortf("contract: implements(): no type %s", e.Args[1].Name))
+		}
+		it, toIface := under(at).(*types.Interface)
+		switch {
+		case iv.Nil.IsTrue():
+			return tFalse
+		case iv.Dyn != nil && toIface:
+			if types.Implements(iv.Dyn, it) {
+				return Not(iv.Nil)
+			}
+			return tFalse
+		case iv.Dyn != nil:
+			if types.Identical(iv.Dyn, at) {
+				return Not(iv.Nil)
+			}
+			return tFalse
+		}
+		base := "assert"
+		if iv.Obj != nil {
+			base = iv.Obj.Name
+		}
+		tn := sanitize(types.TypeString(at, func(p *types.Package) string { return p.Name() }))
+		return And(Not(iv.Nil), Var(base+".is."+tn, SBool))
 	case "entry":
 		// entry(p): the value parameter p had when the function was entered (parameters are mutable in Go)
 		if len(e.Args) != 1 || e.Args[0].Kind != "ident" {
